@@ -1,6 +1,8 @@
 package main
 
 import (
+	"go/types"
+
 	"golang.org/x/tools/go/ssa"
 )
 
@@ -28,7 +30,7 @@ func runC39(c *Ctx) {
 		entry := emptyState()
 		entry.add("version-not-installed-yet")
 		res := fl.Analyze(fn, entry)
-		n := c.Require("C39.O1", res, Or(MethodOn("Add", "vs.zombieTables"), MethodOn("Add", "vs.zombieBlobs")), "zombie sets updated before the new version is installed", []string{"version-not-installed-yet"})
+		n := c.Require("C39.O1", res, Or(MethodOn("Add", "recv.zombieTables"), MethodOn("Add", "recv.zombieBlobs")), "zombie sets updated before the new version is installed", []string{"version-not-installed-yet"})
 		if n < 2 {
 			c.Unresolved("C39.O1", "zombieTables.Add / zombieBlobs.Add not found in UpdateVersionLocked")
 		}
@@ -101,12 +103,26 @@ func runC39(c *Ctx) {
 	}
 	// P2b: copy compaction deletes its output on every failure after creating it
 	if fn := c.Fn("C39.P2", "p.(*DB).runCopyCompaction"); fn != nil {
+		// deleteOnExit: the boolean captured by the deferred closure that removes the object
+		doe := "deleteOnExit"
+		for _, a := range fn.AnonFuncs {
+			if len(instrs(a, ImplCall(c.Iface("C39.P2", "objs.Provider"), "objstorage.Provider", "Remove"))) == 0 {
+				continue
+			}
+			for _, fv := range a.FreeVars {
+				if pt, ok := fv.Type().(*types.Pointer); ok {
+					if bt, ok := pt.Elem().Underlying().(*types.Basic); ok && bt.Kind() == types.Bool {
+						doe = pathOf(fv)
+					}
+				}
+			}
+		}
 		// deleteOnExit = true right after each creation
 		c.Chain("C39.P2", fn, nil,
 			Step{Name: "create|link", M: ImplCall(c.Iface("C39.P2", "objs.Provider"), "objstorage.Provider", "Create", "LinkOrCopyFromLocal"), Gated: true},
 			Step{Name: "deleteOnExit = true", M: Pred("store true to deleteOnExit", func(in ssa.Instruction) bool {
 				st, ok := in.(*ssa.Store)
-				if !ok || pathOf(st.Addr) != "deleteOnExit" {
+				if !ok || pathOf(st.Addr) != doe {
 					return false
 				}
 				k, isK := st.Val.(*ssa.Const)
@@ -119,7 +135,7 @@ func runC39(c *Ctx) {
 		res := fl.Analyze(fn, emptyState())
 		res.At(Pred("deleteOnExit = false", func(in ssa.Instruction) bool {
 			st, ok := in.(*ssa.Store)
-			if !ok || pathOf(st.Addr) != "deleteOnExit" {
+			if !ok || pathOf(st.Addr) != doe {
 				return false
 			}
 			k, isK := st.Val.(*ssa.Const)
@@ -164,8 +180,68 @@ func runC39(c *Ctx) {
 			}
 		}
 	}
+	runC39G3(c)
 	// shared pairing rules
 	runC04Pairing(c)
+}
+
+// runC39G3: cleaning up after a cancelled version edit. cleanupVersionEdit makes the
+// edit's NEW physical tables obsolete; a table the edit merely MOVES (present in both
+// DeletedTables and NewTables) is still referenced by the current version, and a virtual
+// table's backing is handled separately. So every AddBacking of a NewTables entry must be
+// guarded by "not virtual" and by a failed lookup in a set built from DeletedTables.
+func runC39G3(c *Ctx) {
+	fn := c.Fn("C39.G3", "p.(*DB).cleanupVersionEdit")
+	if fn == nil {
+		return
+	}
+	newTables := c.Field("C39.G3", "man.VersionEdit.NewTables")
+	deleted := c.Field("C39.G3", "man.VersionEdit.DeletedTables")
+	overDeleted := func(v ssa.Value) bool {
+		nx, ok := v.(*ssa.Next)
+		if !ok {
+			return false
+		}
+		rg, ok := nx.Iter.(*ssa.Range)
+		return ok && isLoadOfField(rg.X, deleted)
+	}
+	// maps populated with keys taken from ve.DeletedTables
+	delSets := map[ssa.Value]bool{}
+	for _, b := range fn.Blocks {
+		for _, in := range b.Instrs {
+			if mu, ok := in.(*ssa.MapUpdate); ok && len(derivesFrom(mu.Key, overDeleted, 6)) > 0 {
+				delSets[mu.Map] = true
+			}
+		}
+	}
+	notMoved := func(v ssa.Value) (bool, bool) {
+		ex, ok := v.(*ssa.Extract)
+		if !ok || ex.Index != 1 {
+			return false, false
+		}
+		lk, ok := ex.Tuple.(*ssa.Lookup)
+		if !ok || !lk.CommaOk || !delSets[lk.X] {
+			return false, false
+		}
+		return true, true // the fact holds where the lookup failed
+	}
+	fl := NewFlow(c.P).
+		Edge("not-moved", notMoved).
+		Edge("not-virtual", BoolGuard("Virtual", false)).
+		IterationLocal("not-moved", "not-virtual")
+	res := fl.Analyze(fn, emptyState())
+	c.noteFlow(fl)
+	n := c.Require("C39.G3", res, Pred("AddBacking(<backing of a NewTables entry>)", func(in ssa.Instruction) bool {
+		call, ok := in.(*ssa.Call)
+		if !ok || infoOfCommon(call.Common()).Short != "AddBacking" {
+			return false
+		}
+		args := call.Common().Args
+		return len(derivesFrom(args[len(args)-1], func(v ssa.Value) bool { return isLoadOfField(v, newTables) }, 10)) > 0
+	}), "a new table is made obsolete only if it is physical and not merely moved by the edit", []string{"not-virtual", "not-moved"})
+	if n == 0 {
+		c.Unresolved("C39.G3", "no AddBacking of a NewTables entry in cleanupVersionEdit")
+	}
 }
 
 // CmpGuardGT0: fact holds where "x > 0" is known FALSE (x <= 0), for x by path suffix.
